@@ -253,76 +253,51 @@ def optInt : Val → Except EErr (Option Int)
     | some i => .ok (some i)
     | Option.none => .error (.type "slice bound")
 
-def sliceOf (mask : String) (vs : List Val) : Res := do
-  -- mask is three characters 0/1: lower, upper, step
-  let m := mask.toList
-  let pick (present : Bool) (vs : List Val) : Except EErr (Option Int × List Val) :=
-    if present then
-      match vs with
-      | v :: rest => do let i ← optInt v; pure (i, rest)
-      | [] => .error .arity
-    else pure (Option.none, vs)
-  match m with
-  | [a, b, c] => do
-    let (lo, vs) ← pick (a == '1') vs
-    let (hi, vs) ← pick (b == '1') vs
-    let (st, _) ← pick (c == '1') vs
-    pure (.slice lo hi st)
-  | _ => .error .arity
+def pickBound (present : Bool) (vs : List Val) : Except EErr (Option Int × List Val) :=
+  if present then
+    match vs with
+    | v :: rest => do let i ← optInt v; pure (i, rest)
+    | [] => .error .arity
+  else pure (Option.none, vs)
+
+def sliceOf (a b c : Bool) (vs : List Val) : Res := do
+  let (lo, vs) ← pickBound a vs
+  let (hi, vs) ← pickBound b vs
+  let (st, _) ← pickBound c vs
+  pure (.slice lo hi st)
+
+def unOp (n : String) (v : Val) : Res :=
+  if n = "Not" then .ok (.bool (!truthy v))
+  else match asInt v with
+    | some i =>
+      if n = "USub" then .ok (.int (-i))
+      else if n = "UAdd" then .ok (.int i)
+      else .error (.unsupported ("unary " ++ n))
+    | Option.none => .error (.type ("unary " ++ n))
+
+def binOp (k : String) (av bv : Val) : Res :=
+  match asInt av, asInt bv with
+  | some x, some y => intBin k x y
+  | _, _ =>
+    if k = "Add" then
+      (match av, bv with
+       | .str s, .str t => .ok (.str (s ++ t))
+       | .list s, .list t => .ok (.list (s ++ t))
+       | .tuple s, .tuple t => .ok (.tuple (s ++ t))
+       | _, _ => .error (.type "+"))
+    else .error (.type ("binop " ++ k))
 
 /-- Meaning of an `op` node from the (lazily inspected) results of its children. -/
-def evOp (k : String) (rs : List Res) : Res :=
-  if k = "And" then andChain rs
-  else if k = "Or" then orChain rs
-  else if k = "IfExp" then
-    (match rs with
-     | [t, a, b] => do let tv ← t; if truthy tv then a else b
-     | _ => .error .arity)
-  else if k = "Not" then
-    (match rs with
-     | [r] => do let v ← r; pure (.bool (!truthy v))
-     | _ => .error .arity)
-  else if k = "USub" then
-    (match rs with
-     | [r] => do
-       let v ← r
-       match asInt v with
-       | some i => pure (.int (-i))
-       | Option.none => .error (.type "unary -")
-     | _ => .error .arity)
-  else if k = "UAdd" then
-    (match rs with
-     | [r] => do
-       let v ← r
-       match asInt v with
-       | some i => pure (.int i)
-       | Option.none => .error (.type "unary +")
-     | _ => .error .arity)
-  else if k.startsWith "Cmp:" then
-    (match rs with
-     | l :: rest => do
-       let lv ← l
-       cmpChain lv ((k.drop 4).toString.splitOn ",") rest
-     | [] => .error .arity)
-  else if k.startsWith "Slice:" then do
-    let vs ← seqRes rs
-    sliceOf (k.drop 6).toString vs
-  else
-    (match rs with
-     | [a, b] => do
-       let av ← a
-       let bv ← b
-       match asInt av, asInt bv with
-       | some x, some y => intBin k x y
-       | _, _ =>
-         if k = "Add" then
-           (match av, bv with
-            | .str s, .str t => .ok (.str (s ++ t))
-            | .list s, .list t => .ok (.list (s ++ t))
-            | .tuple s, .tuple t => .ok (.tuple (s ++ t))
-            | _, _ => .error (.type "+"))
-         else .error (.type ("binop " ++ k))
-     | _ => .error (.unsupported ("op " ++ k)))
+def evOp : OpKind → List Res → Res
+  | .boolAnd, rs => andChain rs
+  | .boolOr, rs => orChain rs
+  | .ifExp, [t, a, b] => do let tv ← t; if truthy tv then a else b
+  | .un n, [r] => do let v ← r; unOp n v
+  | .bin k, [a, b] => do let av ← a; let bv ← b; binOp k av bv
+  | .cmp ops, l :: rest => do let lv ← l; cmpChain lv ops rest
+  | .slice a b c, rs => do let vs ← seqRes rs; sliceOf a b c vs
+  | .starred, _ => .error (.unsupported "starred")
+  | _, _ => .error .arity
 
 /-- Bind parameters of a called lambda: positionals first, then keywords; every parameter exactly
     once, no unknown keyword (Python's rule for plain parameters without defaults). -/
